@@ -914,3 +914,16 @@ package rsm
 //@ func getHeaderFromFirstChunk [C14]
 //@ nobounds
 //@ ensures result2 ==> ptr(result0) == ptr(data) + 8 && ptr(result1) == ptr(result0) + len(result0) && len(result1) == 4
+
+// ---------------------------------------------------------------- C14: the recorded payload size
+// The size recorded for a snapshot image must be the size of the file: one 4-byte checksum per started block of
+// payload, and none for an empty payload. The body computes the block count in floating point
+// (uint64(math.Ceil(float64(sz)/float64(blockSize)))); govc models exactly this idiom as the integer ceiling for
+// operands whose sum stays below 2^53, where the double computation is exact (DESIGN 2.5) -- hence the bound.
+//@ func getChecksumedBlockSize [C14]
+//@ requires blockSize > 0 && sz + blockSize < 9007199254740992
+//@ ensures result == ((sz + blockSize - 1) / blockSize) * 4 + sz
+// the recorded size of a version-2 image payload: the checksummed blocks plus the 16-byte tail
+//@ func GetV2PayloadSize [C14]
+//@ requires sz + 2 * blockSize < 9007199254740992 && blockSize > 0
+//@ ensures result == ((sz + blockSize - 1) / blockSize) * 4 + sz + 16
